@@ -25,3 +25,7 @@ Definition py_str_opt (v : option str) : str :=
 
 (* bool(x) of a str / list / dict *)
 Definition truthy {A} (l : list A) : bool := match l with [] => false | _ => true end.
+
+(* s.replace(c, r) for a one-character c *)
+Definition replace_char (c : N) (r : str) (s : str) : str :=
+  flat_map (fun x => if N.eqb x c then r else [x]) s.
